@@ -185,9 +185,16 @@ def verify_function(world, contract, budget=None, tier='quick'):
     _util.obj.world = world
     world.trusted_used = set()
     world.inlined = set()
+    from .path import OutOfTime
+    import copy as _copy
+    budget = _copy.copy(budget)
+    budget.deadline = time.time() + budget.wall_s
     try:
         for tag, params in _variants(contract.params):
             _explore(world, contract, params, tag, budget, rep)
+    except OutOfTime:
+        rep.undecided.append('time budget (%d s) exhausted after %d paths'
+                             % (budget.wall_s, rep.paths))
     except Exception as e:      # checker crash: reported, never a violation
         rep.error = '%s: %s\n%s' % (type(e).__name__, str(e)[:300],
                                     traceback.format_exc(limit=8)[-1500:])
@@ -222,6 +229,9 @@ def _explore(world, c, params, tag, budget, rep):
     while work:
         prefix = work.pop()
         rep.paths += 1
+        if budget.deadline is not None and time.time() > budget.deadline:
+            from .path import OutOfTime
+            raise OutOfTime()
         if rep.paths > budget.max_paths:
             rep.undecided.append('path budget (%d) exhausted' %
                                  budget.max_paths)
